@@ -5,7 +5,6 @@ from typing import Dict, Iterable, Iterator, Optional
 from . import obd, uds
 from .diagservice import DiagService
 from .nameditemlist import NamedItemList
-from .parameters.codedconstparameter import CodedConstParameter
 
 
 class ServiceBinner:
@@ -38,31 +37,16 @@ class ServiceBinner:
         if service.request is None:
             return None
 
-        prefix = 0  # prefix of constant parameters
-        cursor = 0  # bit position of the next parameter
-        for param in service.request.parameters:
-            if not isinstance(param, CodedConstParameter):
-                # we *need* at least the first byte of a request to be statically defined!
-                return None
+        # we *need* at least the first byte of a request to be
+        # statically defined! This byte is the first one of the
+        # request's constant prefix (i.e., of the leading coded and
+        # physical constant parameters) which is also used to
+        # dispatch messages to services.
+        prefix = service.request.coded_const_prefix()
+        if len(prefix) < 1:
+            return None
 
-            param_len = param.get_static_bit_length()
-            if param_len is None:
-                return None
-
-            if not isinstance(param.coded_value, int):
-                return None
-
-            prefix <<= param_len
-            prefix |= param.coded_value & ((1 << param_len) - 1)
-            cursor += param_len
-
-            if cursor >= 8:
-                # we have a prefix that is at least 8 bits
-                # long. return its most significant byte.
-                prefix >>= cursor - 8
-                return prefix & 0xff
-
-        return None
+        return prefix[0]
 
     def __str__(self) -> str:
         """Return an informative string about which of the diagnostic
